@@ -530,6 +530,46 @@ func enumerate(tier string, emit func(string)) {
 			}
 		}
 	}
+	// every shape of a three-digit group (000, 00X, 0X0, 0XX with a teen, 0XX, X00, X0X, XX0, XXX, 001, 100) in every
+	// position of a three-group number, both signs, cardinal and ordinal; a reduced set in four-group numbers and
+	// in two adjacent groups at every scale up to 10^63
+	groups := []int64{0, 5, 10, 17, 42, 300, 305, 340, 317, 1, 100}
+	emitEnglish := func(v *big.Int) {
+		if v.Sign() == 0 || v.Cmp(pow(10, 66)) >= 0 {
+			return
+		}
+		for _, d := range []string{"~R", "~:R"} {
+			emit(mkSpec("english", "", d, v.String()))
+			emit(mkSpec("english", "", d, new(big.Int).Neg(v).String()))
+		}
+	}
+	for _, g2 := range groups {
+		for _, g1 := range groups {
+			for _, g0 := range groups {
+				emitEnglish(big.NewInt(g2*1000000 + g1*1000 + g0))
+			}
+		}
+	}
+	few := []int64{0, 5, 17, 300, 999}
+	for _, g3 := range few[1:] {
+		for _, g2 := range few {
+			for _, g1 := range few {
+				for _, g0 := range few {
+					emitEnglish(big.NewInt(((g3*1000+g2)*1000+g1)*1000 + g0))
+				}
+			}
+		}
+	}
+	for k := int64(2); k <= 21; k++ {
+		for _, gh := range few[1:] {
+			for _, gl := range few {
+				v := new(big.Int).Mul(big.NewInt(gh), pow(10, 3*k))
+				v.Add(v, new(big.Int).Mul(big.NewInt(gl), pow(10, 3*(k-1))))
+				emitEnglish(new(big.Int).Add(v, big.NewInt(7)))
+				emitEnglish(v)
+			}
+		}
+	}
 	// all digits different, every group populated
 	emit(mkSpec("english", "", "~R", "123456789012345678901234567890123456789012345678901234567890123456"))
 	emit(mkSpec("english", "", "~:R", "987654321098765432109876543210987654321098765432109876543210987654"))
